@@ -23,17 +23,23 @@ type SimCache struct {
 	// Latency is the (fake) duration of every cache operation: a durable
 	// cache does I/O. Operations record their begin and end instants.
 	Latency time.Duration
+	// CtxAware: like a cache backed by real I/O, an operation whose context is
+	// already done fails with that context's (wrapped) error
+	CtxAware bool
 }
 
 type cacheEnt struct {
 	mu     sync.Mutex
 	bundle *corecrl.Bundle
 	// fault plan: consumed in order per call
-	GetPlan []int       // per Get call: 0 normal, 1 error, 2 forced miss
-	SetPlan []int       // per Set call: 0 normal, 1 error, 2 lost (ack, not stored)
-	gets    map[int]int // per caller: fault plans are consumed per caller so that
-	sets    map[int]int // the outcome does not depend on which caller arrives first
-	Ops     []CacheOp
+	GetPlan []int // per Get call: 0 normal, 1 error, 2 forced miss
+	SetPlan []int // per Set call: 0 normal, 1 error, 2 lost (ack, not stored)
+	// per-caller plans (used when present): concurrent callers of one URL
+	GetPlanBy map[int][]int
+	SetPlanBy map[int][]int
+	gets      map[int]int // per caller: fault plans are consumed per caller so that
+	sets      map[int]int // the outcome does not depend on which caller arrives first
+	Ops       []CacheOp
 }
 
 // CacheOp is one recorded cache call.
@@ -128,12 +134,20 @@ func (c *SimCache) Get(ctx context.Context, url string) (*corecrl.Bundle, error)
 	if e.gets == nil {
 		e.gets = map[int]int{}
 	}
-	if e.gets[caller] < len(e.GetPlan) {
-		plan = e.GetPlan[e.gets[caller]]
+	gp := e.GetPlan
+	if p, ok := e.GetPlanBy[caller]; ok {
+		gp = p
+	}
+	if e.gets[caller] < len(gp) {
+		plan = gp[e.gets[caller]]
 	}
 	e.gets[caller]++
 	op := &e.Ops[idx]
 	op.TEnd, op.Done = time.Now(), true
+	if c.CtxAware && ctx.Err() != nil {
+		op.Outcome = "error"
+		return nil, fmt.Errorf("sim cache: get %q: %w", url, ctx.Err())
+	}
 	switch {
 	case plan == 1:
 		op.Outcome = "error"
@@ -164,13 +178,21 @@ func (c *SimCache) Set(ctx context.Context, url string, b *corecrl.Bundle) error
 	if e.sets == nil {
 		e.sets = map[int]int{}
 	}
-	if e.sets[caller] < len(e.SetPlan) {
-		plan = e.SetPlan[e.sets[caller]]
+	sp := e.SetPlan
+	if p, ok := e.SetPlanBy[caller]; ok {
+		sp = p
+	}
+	if e.sets[caller] < len(sp) {
+		plan = sp[e.sets[caller]]
 	}
 	e.sets[caller]++
 	op := &e.Ops[idx]
 	op.TEnd, op.Done = time.Now(), true
 	op.Base, op.Delta = bundleHashes(b)
+	if c.CtxAware && ctx.Err() != nil {
+		op.Outcome = "error"
+		return fmt.Errorf("sim cache: set %q: %w", url, ctx.Err())
+	}
 	switch plan {
 	case 1:
 		op.Outcome = "error"
